@@ -1,2 +1,10 @@
+# /verif top-level: `make setup` builds the whole framework offline
 setup:
-	@echo "setup placeholder"
+	./tools/build.sh
+	./tools/build_props.sh
+
+clean:
+	rm -rf build coq/extract/build coq/Makefile.coq coq/Makefile.coq.conf coq/.Makefile.coq.d
+	find coq -name '*.vo' -o -name '*.vok' -o -name '*.vos' -o -name '*.glob' -o -name '.*.aux' | xargs rm -f
+	rm -f coq/gen/Tables.v
+.PHONY: setup clean
